@@ -19,9 +19,9 @@ from __future__ import annotations
 import ast
 
 from ..cfg import DataFlow
-from ..model import AnalysisError, FuncInfo, bind_args, call_name, dotted, kw, last_attr, norm_text, walk_no_nested
+from ..model import AnalysisError, FuncInfo, bind_args, dotted, last_attr, norm_text, walk_no_nested
 from ..rules import shift_typestate as ts
-from ..rules.shift_typestate import Bool, C, Contract, F, Interp, N, Spec, flag_layout
+from ..rules.shift_typestate import C, Contract, Interp, N, Spec, flag_layout
 from ..terms import FlowNormalizer, Normalizer, Poly
 
 MEAS = "abtem.measurements"
